@@ -216,6 +216,15 @@ def inverse_topology(outer, update, topology, inverse=None, multi_updates=True):
                             inverse,
                             inner,
                             lambda current: deep_merge(current, value))
+                elif multi_updates and inner and \
+                        get_in(inverse, inner) is not None:
+                    # several ports or variables are wired to this node:
+                    # keep every one of their updates
+                    inverse = update_in(
+                        inverse,
+                        inner[:-1],
+                        lambda current: deep_merge_multi_update(
+                            current, {inner[-1]: value}))
                 else:
                     assoc_path(inverse, inner, value)
     return inverse
